@@ -218,12 +218,22 @@ def t_owntypes(r, name):
     return "func %s() uint64 {\n\tc := new(Cond)\n\tc.Wait()\n\tc.Signal()\n\treturn c.n + %d\n}\n" % (name, r.randrange(1, 9)), True
 
 
-MAY_BE_REJECTED = {"t_goargs"}
+def t_byvalue(r, name):
+    """forms goose does not translate (a wait group held by value, the mutex reached through a condition variable's L field):
+    they must be rejected, or mean what Go means"""
+    v = r.randrange(1, 60)
+    if r.randrange(2) == 0:
+        return ("func %s() uint64 {\n\tvar wg sync.WaitGroup\n\tmu := new(sync.Mutex)\n\tvar n uint64 = 0\n\twg.Add(1)\n\tgo func() {\n\t\tmu.Lock()\n\t\tn = n + %d\n\t\tmu.Unlock()\n\t\twg.Done()\n\t}()\n"
+                "\twg.Wait()\n\tmu.Lock()\n\tres := n\n\tmu.Unlock()\n\treturn res\n}\n" % (name, v)), True
+    return ("func %s() uint64 {\n\tmu := new(sync.Mutex)\n\tc := sync.NewCond(mu)\n\tvar n uint64 = %d\n\tc.L.Lock()\n\tn = n + 1\n\tc.L.Unlock()\n\tmu.Lock()\n\tres := n\n\tmu.Unlock()\n\treturn res\n}\n" % (name, v)), True
 
-TEMPLATES = [t_goargs, t_counter, t_counter, t_cond, t_timeout, t_order, t_loopspawn, t_helper, t_handoff, t_signalled, t_owntypes, t_bcast]
+
+MAY_BE_REJECTED = {"t_goargs", "t_byvalue"}
+
+TEMPLATES = [t_goargs, t_counter, t_counter, t_cond, t_timeout, t_order, t_loopspawn, t_helper, t_handoff, t_signalled, t_owntypes, t_bcast, t_byvalue, t_byvalue]
 
 
-def package(seed, nfuncs=10):
+def package(seed, nfuncs=11):
     r = random.Random(seed)
     fns = []
     for k in range(nfuncs):
@@ -231,7 +241,7 @@ def package(seed, nfuncs=10):
         # whose mutex lives in a re-assignable variable; then templates by rotation and at random
         r.force_zero_timeout = (seed % 2 == 0)
         r.force_var_mutex = (k == 2)
-        t = [t_timeout, t_goargs, t_counter, t_signalled, t_owntypes, t_bcast][k] if k < 6 else TEMPLATES[(seed * 3 + k) % len(TEMPLATES)] if k < 9 else r.choice(TEMPLATES)
+        t = [t_timeout, t_goargs, t_counter, t_signalled, t_owntypes, t_bcast, t_byvalue][k] if k < 7 else TEMPLATES[(seed * 3 + k) % len(TEMPLATES)] if k < 10 else r.choice(TEMPLATES)
         src, det = t(r, "c%d" % k)
         fns.append(("c%d" % k, t.__name__, src, det))
     body = "\n".join(f[2] for f in fns)
